@@ -10,7 +10,7 @@
 namespace sim {
 
 static const char *SN[Y_NSITES] = {"fft_exec", "poly_fft", "decomp", "extmul", "muxrot", "blindrot", "modswitch", "bootstrap",
-                                   "keyswitch", "lwe_lin", "planner", "mutex", "app", "alloc"};
+                                   "keyswitch", "lwe_lin", "planner", "mutex", "app", "alloc", "tableinit"};
 const char *site_name(int s) { return (s >= 0 && s < Y_NSITES) ? SN[s] : "?"; }
 
 enum St { T_NEW, T_RUNNABLE, T_BLOCKED_MUTEX, T_BLOCKED_JOIN, T_FINISHING, T_DONE };
